@@ -103,7 +103,7 @@ def decimal_only(R):
     mod = [b for b in F.bodies.values() if b.crate == "ant_evm" and (b.path.startswith(AMT) or b.path.startswith("<" + AMT)) and "::tests::" not in b.path]
     lax, radix_sites = [], []
     for b in mod:
-        for c in b.calls:
+        for c in b.calls_raw:
             nc = c["ncallee"] or ""
             tg = str(c.get("targs") or "")
             if ("ruint::Uint" in nc and nc.endswith("core::str::traits::FromStr>::from_str")) or (nc == "core::str::<impl str>::parse" and "ruint::Uint" in tg) \
@@ -158,8 +158,18 @@ def whole_input(R):
             (bounded if n and n[0][1].startswith("2_") else unbounded).append(t)
         elif nc in ("core::str::<impl str>::split_once", "core::str::<impl str>::rsplit_once"):
             bounded.append(t)
-        elif nc.startswith("core::str::<impl str>::") and nc.split("::")[-1] in ("split", "rsplit", "split_terminator", "rsplit_terminator", "split_inclusive", "split_whitespace", "matches", "char_indices", "chars", "bytes"):
+        elif nc.startswith("core::str::<impl str>::") and nc.split("::")[-1] in ("split", "rsplit", "split_terminator", "rsplit_terminator", "split_inclusive", "split_whitespace", "matches"):
             unbounded.append(t)
+        elif nc.startswith("core::str::<impl str>::") and nc.split("::")[-1] in ("char_indices", "chars", "bytes") and len(t.get("d") or []) == 1:
+            # a character walk is a split only when it is consumed piecewise (next / take_while / position …); `bytes().all(..)` looks at
+            # every character and is the digits test itself
+            from flow import Taint, op_local
+            its = Taint(body, through="all").closure({t["d"][0]})
+            piecewise = [b2 for b2 in body.blocks if b2["term"]["k"] == "call" and not b2["cleanup"] and b2["term"]["args"]
+                         and op_local(b2["term"]["args"][0]) in its
+                         and (b2["term"].get("ngen") or b2["term"].get("ncallee") or "").split("::")[-1] in ("next", "take_while", "skip_while", "map_while", "position", "find", "nth", "skip", "take", "peekable")]
+            if piecewise:
+                unbounded.append(t)
     ok = bool(bounded or unbounded)
     if not ok:
         R.viol("C16.parse.whole", "anchor-missing:split", "from_str: no split of the input into integer and fraction found", body, body.lines[0])
